@@ -47,6 +47,15 @@ func gen(c15 bool) func(tier string, seed uint64, idx int) interface{} {
 		default:
 			sc.Size = 16384
 		}
+		if r.Bool(1, 8) {
+			// a configured size that the library rounds up: below the minimum of
+			// two read blocks, or not a power of two
+			if r.Bool(2, 3) {
+				sc.Size, sc.Cfg = 16384, []int{1, 100, 4096, 8192, 8193, 12000, 16000}[r.Intn(7)]
+			} else {
+				sc.Size, sc.Cfg = 32768, []int{16385, 20000, 32767}[r.Intn(3)]
+			}
+		}
 		max := sc.Size / 2
 		if c15 && r.Bool(1, 4) {
 			sc.Quantified = false
@@ -211,7 +220,7 @@ func init() {
 	world.Register(&world.Def{
 		Prop: "C14", World: "ring", Gen: gen(false), NewScript: func() interface{} { return &Script{} }, Run: Run, Shrink: shrink,
 		MustProbes: []string{"reserve_wrapped"},
-		Rule:       "script = seeded sequence of producer ops (write, reserve+commit, fill from a chunked reader) and consumer ops (read, peek/wait+commit, drain to a writer), ring size 16-64 KiB, chunk sizes 1..size/2, total 0..8 ring sizes; schedule = seeded random-walk / PCT over every sync, atomic and harness yield point. A run is non-trivial if bytes were produced and at least 3 task switches occurred; distinct = distinct hash of the (task, yield kind) sequence at switches.",
+		Rule:       "script = seeded sequence of producer ops (write, reserve+commit, fill from a chunked reader) and consumer ops (read, peek/wait+commit, drain to a writer), ring size 16-64 KiB (an eighth of the runs with a configured size that the library rounds up to it: below the 16 KiB minimum or not a power of two), chunk sizes 1..size/2, total 0..8 ring sizes; schedule = seeded random-walk / PCT over every sync, atomic and harness yield point. A run is non-trivial if bytes were produced and at least 3 task switches occurred; distinct = distinct hash of the (task, yield kind) sequence at switches.",
 		Real:       real, Stub: stub, Level: "exploration", QuickRuns: 60000, ThoroughRuns: 20000000, Assumptions: assumptions,
 	})
 	world.Register(&world.Def{
